@@ -13,6 +13,7 @@ mod s_tables;
 mod s_fixed;
 mod s_sdt;
 mod s_aml;
+mod s_misc;
 mod g_tables;
 mod sinks;
 
@@ -37,6 +38,7 @@ fn streams() -> Vec<(&'static str, GenFn, RunFn)> {
         ("ent", g_tables::gen_ent as GenFn, s_tables::run_ent as RunFn),
         ("fix", s_fixed::gen_fix as GenFn, s_fixed::run_fix as RunFn),
         ("sdt", s_sdt::gen_sdt as GenFn, s_sdt::run_sdt as RunFn),
+        ("misc", s_misc::gen_misc as GenFn, s_misc::run_misc as RunFn),
         ("aml", s_aml::gen_aml as GenFn, s_aml::run_aml as RunFn),
         ("amlalt", s_aml::gen_amlalt as GenFn, s_aml::run_aml as RunFn),
         ("amlbig", s_aml::gen_amlbig as GenFn, s_aml::run_amlbig as RunFn),
